@@ -100,8 +100,10 @@ CFlush(c) ==
                       ![c].used = 0]
   /\ Note(a, "ok")
 
-End(c) ==
-  LET a == [act |-> "end", c |-> c] IN
+(* leaving the session - normally ("end") or with an exception of the caller propagating out of the `with` block ("endexc"): *)
+(* either way a writing session flushes what it has queued, the file is closed and the lock released                       *)
+EndAs(c, how) ==
+  LET a == [act |-> how, c |-> c] IN
   /\ cs[c].st # "idle"
   /\ IF cs[c].st = "reading"
        THEN /\ cs' = [cs EXCEPT ![c].st = "idle", ![c].fmode = "closed"] /\ UNCHANGED file /\ Note(a, "ok")
@@ -111,9 +113,12 @@ End(c) ==
                                 ![c].used = 0]
             /\ Note(a, "ok")
 
+End(c) == EndAs(c, "end")
+EndExc(c) == EndAs(c, "endexc")
+
 Next == \E c \in Coll :
           \/ \E hd \in Hdr : Make(c, hd)
-          \/ Begin(c, "a") \/ Begin(c, "r") \/ End(c) \/ CFlush(c)
+          \/ Begin(c, "a") \/ Begin(c, "r") \/ End(c) \/ EndExc(c) \/ CFlush(c)
           \/ \E k \in Key : CGet(c, k) \/ \E v \in Val : CPut(c, k, v)
 
 Spec == Init /\ [][Next]_vars
